@@ -163,9 +163,9 @@ H("c08_multiple_values_others", "c08_steps::c08_multiple_values_others", ["C08",
   assumptions=["function, number, string, interpolated-string, type-cast and type-instantiation expressions are outside the bound"])
 
 # ---------------------------------------------------------------------------------------- C01 compute step
-for g in range(9):
+for g in range(12):
     H("c01_compute_and_or_g%d" % g, "c01_compute::c01_compute_and_or_g%d" % g, ["C01"], ["compute_expression::Computer::replace_with (and/or arms)", "LuaValue::is_truthy"],
-      "one `L and R` / `L or R` node, control scenarios of group %d of harness/src/c01_scenarios_g*.in (26 in all: operator x what evaluate(L) answers {nil, true, Unknown} x what has_side_effects answers for L and for the node x what evaluate(node) answers {nil, true, Unknown}); "
+      "one `L and R` / `L or R` node, control scenarios of group %d of harness/src/c01_scenarios_g*.in (36 in all: operator x what evaluate(L) answers {nil, true, table, Unknown} x what has_side_effects answers for L and for the node x what evaluate(node) answers {nil, true, Unknown}); "
       "operand values (any f64 for numbers), the right operand (leaf / call / `...`, value, effects) and the operands' real behaviour symbolic" % g,
       tier="quick" if g == 0 else "thorough", mode="lean", timeout_s=1200, mem_gb=16, replay="compute_and_or_g%d" % g,
       stubs=[EVAL_STUB, SE_STUB, "LuaValue::to_expression -> records the folded value and returns a marker (literal construction runs log10/powf)",
@@ -174,3 +174,22 @@ for g in range(9):
                    "the answers replace_with branches on are constants of each scenario (keeps CBMC out of the drop glue of Option<Expression> temporaries); evaluate(L) answering false/number/string/table/function is represented by `true`/`nil` of the same truthiness",
                    "has_side_effects(L op R) is true whenever has_side_effects(L) is; evaluate(L op R) is definite only if the operands that decide it are known",
                    "native replay runs the real Computer::replace_with (real evaluator, real clone) on realised operands"])
+
+# ---------------------------------------------------------------------------------------- C06 if-expression step
+H("c06_if_branch", "c06_ifexpr::c06_if_branch", ["C06"],
+  ["remove_if_expression::Processor::convert_if_branch", "remove_if_expression::Processor::wrap_in_table", "Evaluator::can_return_multiple_values", "LuaValue::is_truthy"],
+  "one if/else branch; condition in {leaf, call}, else operand in {leaf, call, `...`}, result operand over all shapes: a single-valued leaf (value nil/false/true/any f64/string/table/function, known or Unknown), a call, `...`, or `not x` / `-x` / `#x` over an unknown leaf",
+  tier="thorough", mode="lean", timeout_s=1500, mem_gb=24, replay="if_branch", stubs=[EVAL_STUB],
+  assumptions=["elseif chains are folded by the same step (fold over branches in process_expression, which clones nodes and is not executed)",
+               "native replay runs the real convert_if_branch with the real evaluator on realised operands"])
+
+H("c06_if_branch_light", "c06_ifexpr::c06_if_branch_light", ["C06"],
+  ["remove_if_expression::Processor::convert_if_branch", "remove_if_expression::Processor::wrap_in_table", "Evaluator::can_return_multiple_values", "LuaValue::is_truthy"],
+  "one if/else branch; condition and else operands leaves, result operand over all shapes: a single-valued leaf (value nil/false/true/any f64/string/table/function, known or Unknown), a call, `...`, or `not x` / `-x` / `#x` over an unknown leaf",
+  mode="lean", timeout_s=1200, mem_gb=16, replay="if_branch_light", stubs=[EVAL_STUB],
+  assumptions=["elseif chains are folded by the same step (fold over branches in process_expression, which clones nodes and is not executed)",
+               "native replay runs the real convert_if_branch with the real evaluator on realised operands"])
+
+# c06_if_chain_* (the whole process_expression fold over two elseif branches, interpreted) are written
+# in harness/src/c06_ifexpr.rs but not registered: the slice-iterator loop of `fold` is unrolled to the
+# unwind bound with convert_if_branch inlined in each copy (out of memory at 16 GB, unwind 7).
